@@ -1091,6 +1091,25 @@ impl<'a> RewriteVisitor<'a> for Rewriter<'a> {
                 _ => table.clone().into(),
             },
         );
+        #[cfg(feature = "verif-hooks")]
+        crate::verif_hooks::emit(
+            "rewrite_node",
+            vec![
+                ("kind", "table".into()),
+                ("name", table.name().into()),
+                ("rule", rewriting_rule.to_string().into()),
+                ("output_name", relation.name().into()),
+                (
+                    "output_fields",
+                    relation
+                        .schema()
+                        .iter()
+                        .map(|f| f.name().to_string())
+                        .collect::<Vec<_>>()
+                        .into(),
+                ),
+            ],
+        );
         (relation, DpEvent::no_op()).into()
     }
 
@@ -1124,6 +1143,25 @@ impl<'a> RewriteVisitor<'a> for Rewriter<'a> {
                     .input(relation_input)
                     .build(),
             },
+        );
+        #[cfg(feature = "verif-hooks")]
+        crate::verif_hooks::emit(
+            "rewrite_node",
+            vec![
+                ("kind", "map".into()),
+                ("name", map.name().into()),
+                ("rule", rewriting_rule.to_string().into()),
+                ("output_name", relation.name().into()),
+                (
+                    "output_fields",
+                    relation
+                        .schema()
+                        .iter()
+                        .map(|f| f.name().to_string())
+                        .collect::<Vec<_>>()
+                        .into(),
+                ),
+            ],
         );
         (relation, dp_event_input).into()
     }
@@ -1170,6 +1208,25 @@ impl<'a> RewriteVisitor<'a> for Rewriter<'a> {
                     .input(relation_input)
                     .build(),
             },
+        );
+        #[cfg(feature = "verif-hooks")]
+        crate::verif_hooks::emit(
+            "rewrite_node",
+            vec![
+                ("kind", "reduce".into()),
+                ("name", reduce.name().into()),
+                ("rule", rewriting_rule.to_string().into()),
+                ("output_name", relation.name().into()),
+                (
+                    "output_fields",
+                    relation
+                        .schema()
+                        .iter()
+                        .map(|f| f.name().to_string())
+                        .collect::<Vec<_>>()
+                        .into(),
+                ),
+            ],
         );
         (relation, dp_event_input).into()
     }
@@ -1264,6 +1321,25 @@ impl<'a> RewriteVisitor<'a> for Rewriter<'a> {
                     .build(),
             },
         );
+        #[cfg(feature = "verif-hooks")]
+        crate::verif_hooks::emit(
+            "rewrite_node",
+            vec![
+                ("kind", "join".into()),
+                ("name", join.name().into()),
+                ("rule", rewriting_rule.to_string().into()),
+                ("output_name", relation.name().into()),
+                (
+                    "output_fields",
+                    relation
+                        .schema()
+                        .iter()
+                        .map(|f| f.name().to_string())
+                        .collect::<Vec<_>>()
+                        .into(),
+                ),
+            ],
+        );
         (relation, dp_event_left.compose(dp_event_right)).into()
     }
 
@@ -1283,6 +1359,25 @@ impl<'a> RewriteVisitor<'a> for Rewriter<'a> {
                 .right(relation_right)
                 .build(),
         );
+        #[cfg(feature = "verif-hooks")]
+        crate::verif_hooks::emit(
+            "rewrite_node",
+            vec![
+                ("kind", "set".into()),
+                ("name", set.name().into()),
+                ("rule", _rewriting_rule.to_string().into()),
+                ("output_name", relation.name().into()),
+                (
+                    "output_fields",
+                    relation
+                        .schema()
+                        .iter()
+                        .map(|f| f.name().to_string())
+                        .collect::<Vec<_>>()
+                        .into(),
+                ),
+            ],
+        );
         (relation, dp_event_left.compose(dp_event_right)).into()
     }
 
@@ -1291,6 +1386,16 @@ impl<'a> RewriteVisitor<'a> for Rewriter<'a> {
         values: &'a Values,
         _rewriting_rule: &'a RewritingRule,
     ) -> RelationWithDpEvent {
+        #[cfg(feature = "verif-hooks")]
+        crate::verif_hooks::emit(
+            "rewrite_node",
+            vec![
+                ("kind", "values".into()),
+                ("name", values.name().into()),
+                ("rule", _rewriting_rule.to_string().into()),
+                ("output_name", values.name().into()),
+            ],
+        );
         (Arc::new(values.clone().into()), DpEvent::no_op()).into()
     }
 }
